@@ -4,6 +4,7 @@ import glob, json, os, re
 
 ROOT = os.path.dirname(os.path.dirname(os.path.abspath(__file__)))
 rows = []
+notes = json.load(open(os.path.join(ROOT, 'seeded', 'NOTES.json'))) if os.path.exists(os.path.join(ROOT, 'seeded', 'NOTES.json')) else {}
 for d in sorted(glob.glob(os.path.join(ROOT, 'seeded', '*'))):
     mp = os.path.join(d, 'meta.json')
     if not os.path.exists(mp):
@@ -17,7 +18,7 @@ for d in sorted(glob.glob(os.path.join(ROOT, 'seeded', '*'))):
     det = m.get('detected_by', {})
     caught = [c for c, r in det.items() if r.get('violation')]
     missed = [c for c, r in det.items() if not r.get('violation')]
-    note = m.get('note', '')
+    note = notes.get(name, m.get('note', ''))
     rows.append(f'| {name} | {summary} | {", ".join(caught) or "—"} | {", ".join(missed) or "—"} | {note} |')
 table = ['<!-- seeded-table-begin -->', '| change | what it breaks | caught by (quick tier) | run but silent | note |', '|---|---|---|---|---|'] + rows + ['<!-- seeded-table-end -->']
 p = os.path.join(ROOT, 'DESIGN.md')
